@@ -64,6 +64,25 @@ pub fn runner(id: &str, tier: Tier, seed: u64) -> Option<(u64, Runner)> {
     }
 }
 
+/// Run the deep batch of a property with the instrumented build, if the check script produced one.
+/// Ok(None) = no instrumented build available.
+pub fn run_deep_batch(prop: &str, tier: Tier, seed: u64) -> Result<Option<crate::report::RunOutcome>, String> {
+    let bin = match std::env::var("VERIF_DEEP_BIN").ok().filter(|p| std::path::Path::new(p).exists()) {
+        Some(b) => b,
+        None => return Ok(None),
+    };
+    let tmp = crate::report::verif_root().join("sim").join("target").join(format!("deep-{}-{}.out", prop, std::process::id()));
+    let _ = std::fs::create_dir_all(tmp.parent().unwrap());
+    let st = std::process::Command::new(&bin).args(["deepruns", prop, tier.name(), &seed.to_string(), tmp.to_str().unwrap()]).status();
+    let ok = st.map(|s| s.success()).unwrap_or(false);
+    let r = std::fs::read(&tmp).ok().and_then(|b| crate::report::RunOutcome::from_bytes(&b));
+    let _ = std::fs::remove_file(&tmp);
+    match r {
+        Some(o) if ok => Ok(Some(o)),
+        _ => Err("the deep batch did not deliver a result".into()),
+    }
+}
+
 pub const ALL: [&str; 10] = ["C01", "C02", "C03", "C05", "C06", "C08", "C09", "C10", "C15", "C16"];
 
 /// replay kind "rerun": execute the whole run again, in its own process, and
